@@ -159,6 +159,9 @@ var shareCases = []shareCase{
 	{"ref-param-keyelem-of-copy", "function c06setr6(&$x) { $x = 6; } $a = []; $a['k'] = 1; $a['m'] = 2; $b = $a; c06setr6($b['k']); echo show($a), ' ', show($b);", "[k=>1,m=>2,] [k=>6,m=>2,]", "refleak"},
 	{"ref-slot-of-orig", "$a = [1, 2, 3]; $b = $a; $r = &$a[1]; $r = 9; echo show($a), ' ', show($b);", "[0=>1,1=>9,2=>3,] [0=>1,1=>2,2=>3,]", "refleak"},
 	{"ref-arrslot-before-copy", "$a = [[1], 2]; $r = &$a[0]; $b = $a; $b[0][] = 7; echo show($a), ' ', show($b), ' ', show($r);", "[0=>[0=>1,1=>7,],1=>2,] [0=>[0=>1,1=>7,],1=>2,] [0=>1,1=>7,]", ""},
+	// a scalar value object is shared by everything that holds it (property defaults, array elements): reading JSON
+	// into an object must not change it in place (fixed: C06-8)
+	{"json-decode-class-default", "class C06PLJ { public $n = 1; public $f = 1.5; } $x = new C06PLJ; $a = [$x->n, $x->f, 7]; $b = $a; $y = json_decode('{\"n\": 5, \"f\": 2.5}', 'C06PLJ'); echo show($a), ' ', show($b), ' ', $x->n, ' ', (new C06PLJ)->n, ' ', $y->n;", "[0=>1,1=>1.5,2=>7,] [0=>1,1=>1.5,2=>7,] 1 1 5", "payload"},
 	{"ref-slot-before-copy", "$a = [1, 2]; $r = &$a[0]; $b = $a; $b[0] = 7; echo show($a), ' ', show($b), ' ', show($r);", "[0=>7,1=>2,] [0=>7,1=>2,] 7", ""},
 }
 
@@ -171,6 +174,9 @@ func (r *runner) runShare(sc shareCase) {
 		pre, what := "noshare", "explicitly shared names no longer share"
 		if sc.Sig != "" {
 			pre, what = sc.Sig, "a write did not do exactly what it names"
+		}
+		if sc.Sig == "payload" {
+			what = "a scalar value object shared by an array element was changed in place"
 		}
 		if sc.Sig == "refleak" {
 			what = "a reference taken to an element of one copy of an array writes through to the other copy"
